@@ -105,3 +105,28 @@ def sources(prefixes=None):
         if prefixes is None or any(n.startswith(p) for p in prefixes):
             out.append(f'{n} ({fn} sha1 {h[:12]})')
     return out
+
+
+_REAL_MODS = {}
+
+
+def load_real(names):
+    """Import the given scared modules normally (real numpy / numba) from REPO, without disturbing the shim-loaded copies."""
+    if not _real:
+        real_imports()
+    saved = {k: v for k, v in sys.modules.items() if k == 'scared' or k.startswith('scared.')}
+    for k in saved:
+        del sys.modules[k]
+    sys.modules.update(_REAL_MODS)
+    sys.path.insert(0, REPO)
+    try:
+        mods = [importlib.import_module(n) for n in names]
+        for k, v in list(sys.modules.items()):
+            if k == 'scared' or k.startswith('scared.'):
+                _REAL_MODS[k] = v
+    finally:
+        sys.path.remove(REPO)
+        for k in [k for k in sys.modules if k == 'scared' or k.startswith('scared.')]:
+            del sys.modules[k]
+        sys.modules.update(saved)
+    return mods
